@@ -4,6 +4,7 @@ import re
 
 from analysis.facts import callee, callee_short
 from analysis.cfg import cfg
+from analysis.guards import resolve_cond
 from analysis.defuse import Tracer, du
 from analysis.tables import char_consts_compared
 
@@ -371,3 +372,77 @@ def run(chk, prog):
                    'choices are shown as index + %s and read back as number - %s' % (sorted(shown), sorted(taken)),
                    'choice numbering disagrees: shown as index + %s, read back as number - %s: the number typed selects '
                    'another choice than the one displayed beside it' % (sorted(shown), sorted(taken)), pi.loc(0))
+
+    # ---- (e) every step of the library is shown
+    RE = 'C20.every-step-shown'
+    chk.rule(RE, 'In evaluate_story, on every path from a successful Story::cont to the next loop iteration (or to the normal '
+             'return) the tool prints a line built from that call\'s text, asks for the step\'s tags (and, where it tests '
+             'them, only skips printing when they are empty) and flushes the collected messages: a step with empty text '
+             'still carries tags and messages.')
+    es = prog.fn('player::evaluate_story')
+    if chk.anchor(RE, 'player::evaluate_story', es):
+        ge = cfg(es)
+        conts = [bb for bb, t in es.calls() if callee_short(t) == 'Story::cont']
+        text_sites = [bb for bb, tmpl, args in js.sites(es)
+                      if any('via:Story::cont' in lt.prov(es, o) for o, ty, ab in args)]
+        tag_reads = [bb for bb, t in es.calls() if callee_short(t) == 'Story::get_current_tags']
+        flushes = [bb for bb, t in es.calls() if callee_short(t) == 'player::flush_messages']
+        heads = list(ge.loops_heads())
+        from analysis.wbf import err_exits
+        errs = [b for b, d, s in err_exits(prog, es)]
+        if chk.anchor(RE, 'Story::cont in evaluate_story', conts) and chk.anchor(RE, 'print of the step text', text_sites):
+            # the JSON text object is owed on every path on which JSON mode is not excluded (in plain mode printing an
+            # empty text is a no-op, so skipping it there changes nothing)
+            json_text = [bb for bb, tmpl, args in js.sites(es) if '"' in tmpl
+                         and any('via:Story::cont' in lt.prov(es, o) for o, ty, ab in args)]
+            jsw = {}
+            for b in range(len(es.blocks)):
+                tt = es.blocks[b]['term']
+                if tt and tt['k'] == 'switch':
+                    c = resolve_cond(prog, es, tt['d'], tr)
+                    if c is not None and c.desc == ('field', 'Options::json_output'):
+                        jsw[b] = (tt, c)
+            bad = None
+            for cb in conts:
+                start = es.blocks[cb]['term'].get('t')
+                seen, stack = set(), [(start, None, [start])]
+                while stack and bad is None:
+                    b, jv, pth = stack.pop()
+                    if b is None or (b, jv) in seen or b in json_text or b in errs:
+                        continue
+                    seen.add((b, jv))
+                    if b in heads or b in ge.returns:
+                        if jv is not False:
+                            bad = pth
+                        continue
+                    if b in jsw:
+                        tt, c = jsw[b]
+                        vals = [v for v, _ in tt['ts']]
+                        edges = [(c.truth_of_value(v), tb) for v, tb in tt['ts']]
+                        rest = {0, 1} - set(vals)
+                        edges.append((c.truth_of_value(rest.pop()) if len(rest) == 1 else None, tt['else']))
+                        for truth, tb in edges:
+                            if jv is None or truth is None or truth == jv:
+                                stack.append((tb, truth if truth is not None else jv, pth + [tb]))
+                    else:
+                        for nb in ge.succ[b]:
+                            stack.append((nb, jv, pth + [nb]))
+            chk.decide(RE, chk.key(RE, 'text-printed'), bool(json_text) and bad is None,
+                       'in JSON mode every iteration prints the text object',
+                       'evaluate_story can go from Story::cont to the next iteration in JSON mode without printing the '
+                       '{"text": ..} object: a step of the library whose text is empty is missing from the sequence',
+                       es.loc(conts[0]), {'witness_blocks': bad})
+            for what, blocks in (('tags-read', tag_reads), ('messages-flushed', flushes)):
+                bad = None
+                for cb in conts:
+                    nxt = [es.blocks[cb]['term'].get('t')] if es.blocks[cb]['term'].get('t') is not None else []
+                    w = ge.path(nxt, lambda b: b in heads or (b in ge.returns and b not in errs), avoid=blocks + errs)
+                    if w is not None:
+                        bad = w
+                chk.decide(RE, chk.key(RE, what), bool(blocks) and bad is None,
+                           'on every path of an iteration',
+                           'evaluate_story can go from Story::cont to the next iteration without %s: a step of the library '
+                           '(for instance one whose text is empty but that has tags or raised a warning) is not shown '
+                           'completely' % {'tags-read': 'reading the step\'s tags',
+                                           'messages-flushed': 'flushing the collected messages'}[what],
+                           es.loc(conts[0]), {'witness_blocks': bad})
